@@ -221,6 +221,9 @@ def decorations(k, rich):
         out.append((base, zero, i))
         out.append((base, tuple(1 if j != i else 0 for j in range(k)), i))
         out.append((tuple(DEFAULTS[1] for _ in range(k)), tuple(2 if j == (i + 1) % k else 0 for j in range(k)), i))
+        # a fixed cell that itself records a depth (deeper than, and shallower than, its neighbours)
+        out.append((base, tuple(2 if j == i else 0 for j in range(k)), i))
+        out.append((base, tuple(1 if j == i else 2 for j in range(k)), i))
     return out
 
 
